@@ -43,6 +43,21 @@ Theorem C04_read_registers_data : forall s n pdu v r,
 Proof. exact read_registers_data. Qed.
 Print Assumptions C04_read_registers_data.
 
+(* Round trip with the encoding a conforming server produces (Spec `pack` = LSB-first, padding 0;
+   registers big-endian): any vector of the requested length comes back unchanged, whatever the
+   byte-count byte. *)
+Theorem C04_roundtrip_bits : forall r s bits bc,
+  r = RReadCoils (s, len bits) \/ r = RReadDiscreteInputs (s, len bits) -> request_wf r ->
+  handle_response r (reply_fc r :: bc :: pack bits) = Ok (RespBits (indexed s (fun k => nth k bits false) (len bits))).
+Proof. exact roundtrip_bits. Qed.
+Print Assumptions C04_roundtrip_bits.
+
+Theorem C04_roundtrip_registers : forall r s regs bc,
+  r = RReadHoldingRegisters (s, len regs) \/ r = RReadInputRegisters (s, len regs) -> request_wf r ->
+  handle_response r (reply_fc r :: bc :: flat_map be regs) = Ok (RespRegisters (indexed s (fun k => nth k regs 0) (len regs))).
+Proof. exact roundtrip_registers. Qed.
+Print Assumptions C04_roundtrip_registers.
+
 (* A well-formed exception reply (function code + 0x80, one code byte) yields exactly that
    exception code: the returned ExceptionCode converts back to the byte that was received. *)
 Theorem C04_exception : forall r c,
